@@ -19,13 +19,15 @@ theorem cand_exists_of_vote {neo : AL NeoAcc} {cands : AL Cand} {voters : Int} (
   omega
 
 theorem votePre_inv {nt : Nat} {dn dg k : Int} (e : Env) (l : Ledger) (h : Nat) (pub : Option Nat) (wit : Bool)
-    (hi : InvG nt dn dg k l) : InvG nt dn dg k (votePre e l h pub wit).1 := by
+    (hi : InvG nt dn dg k l) :
+    InvG nt dn dg k (votePre e l h pub wit).1 ∧ (votePre e l h pub wit).1.events = l.events ∧
+    (votePre e l h pub wit).1.gas = l.gas ∧ ∀ a, at0 (·.bal) (votePre e l h pub wit).1.neo a = at0 (·.bal) l.neo a := by
   have hv := hi.votes
   unfold votePre
   split
-  · exact hi
+  · exact ⟨hi, rfl, rfl, fun _ => rfl⟩
   · cases hg : get l.neo h with
-    | none => exact hi
+    | none => exact ⟨hi, rfl, rfl, fun _ => rfl⟩
     | some acc =>
       simp only []
       have hpos : 0 < acc.bal := hv.neoPos _ (get_mem _ _ _ hg)
@@ -42,6 +44,7 @@ theorem votePre_inv {nt : Nat} {dn dg k : Int} (e : Env) (l : Ledger) (h : Nat) 
         have a4 : l1.gas = l.gas := by subst hl1; split <;> rfl
         have a5 : l1.gasSupply = l.gasSupply := by subst hl1; split <;> rfl
         have a6 : l1.deps = l.deps := by subst hl1; split <;> rfl
+        have a8 : l1.events = l.events := by subst hl1; split <;> rfl
         have a7 : l1.voters = l.voters + (if (acc.vote.isNone != pub.isNone) = true then (if pub.isNone = true then -acc.bal else acc.bal) else 0) := by
           subst hl1; split <;> simp
         have hds := distributeGas_isSome e l1 acc (by omega)
@@ -54,12 +57,12 @@ theorem votePre_inv {nt : Nat} {dn dg k : Int} (e : Env) (l : Ledger) (h : Nat) 
           cases b1 with
           | false =>
             exfalso
-            obtain ⟨_, c, hc, hnone⟩ := modVotes_false l1 acc1 _ false l2 hm1
+            obtain ⟨_, _, c, hc, hnone⟩ := modVotes_false l1 acc1 _ false l2 hm1
             rw [hv1] at hc; rw [a2] at hnone
             exact cand_exists_of_vote hv h acc c hg hc hnone
           | true =>
             simp only []
-            obtain ⟨m1, m2, m3, m4, m5, m6, _, cu1, nz1⟩ := modVotes_spec l1 acc1 (-acc1.bal) false l2 hm1
+            obtain ⟨m1, m2, m3, m4, m5, m6, m7, cu1, nz1⟩ := modVotes_spec l1 acc1 (-acc1.bal) false l2 hm1
             generalize hacc3 : voteNewAcc l2 acc1 pub = acc3
             have hb3 : acc3.bal = acc.bal := by subst hacc3; cases pub <;> simp [voteNewAcc, hb1]
             have hv3 : acc3.vote = pub := by subst hacc3; cases pub <;> simp [voteNewAcc]
@@ -68,7 +71,7 @@ theorem votePre_inv {nt : Nat} {dn dg k : Int} (e : Env) (l : Ledger) (h : Nat) 
               cases b2 with
               | false =>
                 exfalso
-                obtain ⟨_, c, hc, hnone⟩ := modVotes_false l2 acc3 _ true l3 hm2
+                obtain ⟨_, _, c, hc, hnone⟩ := modVotes_false l2 acc3 _ true l3 hm2
                 rw [hv3] at hc
                 -- the new candidate was checked to be registered, and a registered candidate keeps its record
                 subst hc
@@ -82,10 +85,19 @@ theorem votePre_inv {nt : Nat} {dn dg k : Int} (e : Env) (l : Ledger) (h : Nat) 
                   rw [hk] at hnone; cases hnone
               | true =>
                 try simp only [] at hcand
-                obtain ⟨n1, n2, n3, n4, n5, n6, _, cu2, _⟩ := modVotes_spec l2 acc3 acc3.bal true l3 hm2
+                obtain ⟨n1, n2, n3, n4, n5, n6, n7, cu2, _⟩ := modVotes_spec l2 acc3 acc3.bal true l3 hm2
                 have hb4 := hb3
                 have hv4 := hv3
-                show InvG nt dn dg k { l3 with neo := put l3.neo h acc3 }
+                show InvG nt dn dg k { l3 with neo := put l3.neo h acc3 } ∧ l3.events = l.events ∧ l3.gas = l.gas ∧
+                  ∀ a, at0 (·.bal) (put l3.neo h acc3) a = at0 (·.bal) l.neo a
+                refine ⟨?_, by rw [n7, m7, a8], by rw [n3, m3, a4], ?_⟩
+                case refine_2 =>
+                  intro a
+                  rw [n1, m1, a1]
+                  unfold at0
+                  by_cases ha : a = h
+                  · subst ha; rw [get_put_eq, hg]; simp [hb3]
+                  · rw [get_put_ne _ _ _ _ ha]
                 have en : l3.neo = l.neo := by rw [n1, m1, a1]
                 have hnodup2 := cu1.nodup (by rw [a2]; exact hv.candNodup)
                 -- votes of every candidate after the two updates
